@@ -129,6 +129,9 @@ func QBig(twoA int, x float64) float64 {
 			sum.Add(sum, term)
 			term.Mul(term, bx)
 			term.Quo(term, div.SetInt64(int64(j+1)))
+			if negligible(term, sum, float64(j+1), x) {
+				break
+			}
 		}
 	} else {
 		k = (twoA - 1) / 2
@@ -144,11 +147,23 @@ func QBig(twoA int, x float64) float64 {
 			// multiply by x / (j + 3/2) = 2x / (2j+3)
 			term.Mul(term, bx2)
 			term.Quo(term, div.SetInt64(int64(2*j+3)))
+			if negligible(term, sum, float64(j)+1.5, x) {
+				break
+			}
 		}
 	}
 	sum.Mul(sum, ex)
 	v, _ := sum.Float64()
 	return clamp01(v + erfc)
+}
+
+// negligible: the terms decrease once the index exceeds x; from there on a term more than prec+16 bits
+// below the sum cannot change it (and adding it would make math/big align mantissas across the gap).
+func negligible(term, sum *big.Float, idx, x float64) bool {
+	if idx <= x+1 || sum.Sign() == 0 {
+		return false
+	}
+	return term.Sign() == 0 || term.MantExp(nil) < sum.MantExp(nil)-prec-16
 }
 
 // Phi is the standard normal distribution function.
